@@ -444,6 +444,17 @@ func c11InBubble(ops []c11Op, hist []int) verifx.SearchResult {
 			obs = "advance"
 		}
 		synctest.Wait()
+		// a DELETE that has been answered 204 is an acknowledged deletion, whenever the answer comes and
+		// whatever is still in flight: from then on the id is dead
+		kept := closers[:0]
+		for _, c := range closers {
+			if c.w != nil && finished(c.done) && c.w.Code == 204 {
+				sess[c.sess].alive, sess[c.sess].closing = false, false
+				continue
+			}
+			kept = append(kept, c)
+		}
+		closers = kept
 		// the server's view agrees with the reference table after every step
 		var liveIDs []string
 		for ss := range s.Sessions() {
